@@ -425,7 +425,9 @@ def check_agreement(pid, r, faulty, skip=()):
             pair += "/released-side-" + ("wrote-rp" if rel_wrote_rp else "never-wrote-rp")
         if {a, b} == {"rejected", "aborted"}:
             # requestor gave up (timeout/abort) before the rejection reached it
-            rj_seen = any(h["pdu"] == "A_ASSOCIATE_RJ" for h in r.evts(req, "EVT_PDU_RECV"))
+            # ("before": a rejection that arrives after the requestor's ACSE timeout made it abort does not count)
+            ab_seq = [h["seq"] for h in r.evts(req, "EVT_ABORTED")]
+            rj_seen = any(h["pdu"] == "A_ASSOCIATE_RJ" and (not ab_seq or h["seq"] < ab_seq[0]) for h in r.evts(req, "EVT_PDU_RECV"))
             if b == "rejected" and a == "aborted" and not rj_seen:
                 continue
         out.append(C.v("agreement", "%s/outcome-mismatch/req-%s/acc-%s%s" % (pid, a, b, pair[len("%s-%s" % (a, b)):]), "conn %d: requestor %s=%s acceptor %s=%s" % (cid, req, r.final[req], acc, r.final[acc])))
